@@ -86,8 +86,10 @@ func (i *postingsIterator) Advance(number uint64) (segment.Posting, error) {
 		if err != nil {
 			return nil, err
 		}
-		// close the current term field reader before replacing it with a new one
-		_ = i.Close()
+		// the current state is finished, but this iterator stays in use with
+		// the new state, so it must not be handed to the recycle pool here
+		// (Close would do that, and the final Close would add it a second time)
+		atomic.AddUint64(&i.snapshot.parent.stats.TotTermSearchersFinished, uint64(1))
 		*i = *(i2.(*postingsIterator))
 	}
 	segIndex, ldocNum := i.snapshot.segmentIndexAndLocalDocNumFromGlobal(number)
